@@ -18,7 +18,7 @@ import sys
 HERE = os.path.dirname(os.path.dirname(os.path.abspath(__file__)))
 T = 1_000_003  # an awkward nanosecond
 
-SYNC_NOTE = "zero-delay polling wait (`while not flag: yield 0.0`); repair being completed by C09 from notes/candidate-sync-waits.diff"
+SYNC_NOTE = "zero-delay polling wait (`while not flag: yield 0.0`); repaired by C09-sync-waits-park.diff (park on a SimFuture)"
 
 
 def _f(id_, component, oracle, shape, what, scenario, params, seed=0, **extra):
@@ -41,32 +41,32 @@ FINDINGS = [
     _f(
         "C07-mutex-acquire-spin", "Mutex", "frozen-clock", "spin:Mutex.acquire",
         "Mutex.acquire() polls with `yield 0.0` while another process holds the lock for a positive time: the clock never advances",
-        "sync.mutex_contention", {"arrivals_ns": [T, T]}, fix_proposed_by="C09", note=SYNC_NOTE,
+        "sync.mutex_contention", {"arrivals_ns": [T, T]}, fix_proposed="C09-sync-waits-park.diff", fix_proposed_by="C09", note=SYNC_NOTE,
     ),
     _f(
         "C07-semaphore-acquire-spin", "Semaphore", "frozen-clock", "spin:Semaphore.acquire",
         "Semaphore.acquire() polls with `yield 0.0` while the permits are held for a positive time: the clock never advances",
-        "sync.semaphore_contention", {"arrivals_ns": [T, T], "cap": 2}, fix_proposed_by="C09", note=SYNC_NOTE,
+        "sync.semaphore_contention", {"arrivals_ns": [T, T], "cap": 2}, fix_proposed="C09-sync-waits-park.diff", fix_proposed_by="C09", note=SYNC_NOTE,
     ),
     _f(
         "C07-rwlock-acquire-read-spin", "RWLock", "frozen-clock", "spin:RWLock.acquire_read",
         "RWLock.acquire_read() polls with `yield 0.0` behind a waiting writer: the clock never advances",
-        "sync.rwlock_mixed", {"arrivals_ns": [T, T, T]}, fix_proposed_by="C09", note=SYNC_NOTE,
+        "sync.rwlock_mixed", {"arrivals_ns": [T, T, T]}, fix_proposed="C09-sync-waits-park.diff", fix_proposed_by="C09", note=SYNC_NOTE,
     ),
     _f(
         "C07-rwlock-acquire-write-spin", "RWLock", "frozen-clock", "spin:RWLock.acquire_write",
         "RWLock.acquire_write() polls with `yield 0.0` while a reader holds the lock for a positive time: the clock never advances",
-        "sync.rwlock_mixed", {"arrivals_ns": [T, T, T]}, fix_proposed_by="C09", note=SYNC_NOTE,
+        "sync.rwlock_mixed", {"arrivals_ns": [T, T, T]}, fix_proposed="C09-sync-waits-park.diff", fix_proposed_by="C09", note=SYNC_NOTE,
     ),
     _f(
         "C07-barrier-wait-spin", "Barrier", "frozen-clock", "spin:Barrier.wait",
         "Barrier.wait() polls with `yield 0.0` until the last party arrives at a later time: the clock never advances",
-        "sync.barrier_staggered", {"arrivals_ns": [T, T], "cap": 2}, fix_proposed_by="C09", note=SYNC_NOTE,
+        "sync.barrier_staggered", {"arrivals_ns": [T, T], "cap": 2}, fix_proposed="C09-sync-waits-park.diff", fix_proposed_by="C09", note=SYNC_NOTE,
     ),
     _f(
         "C07-condition-wait-spin", "Condition", "frozen-clock", "spin:Condition.wait",
         "Condition.wait() polls with `yield 0.0` until a notifier that runs later: the clock never advances",
-        "sync.condition_notify_all", {"arrivals_ns": [T]}, fix_proposed_by="C09", note=SYNC_NOTE,
+        "sync.condition_notify_all", {"arrivals_ns": [T]}, fix_proposed="C09-sync-waits-park.diff", fix_proposed_by="C09", note=SYNC_NOTE,
     ),
     # ---- stale `now` reused after a yield
     _f(
@@ -87,7 +87,7 @@ FINDINGS = [
     _f(
         "C07-distributed-rate-limiter-forward-stale", "DistributedRateLimiter", "past-emission", "forward::Request",
         "DistributedRateLimiter forwards with the arrival time (`event.time`) after the backing-store read/write round trips",
-        "rate_limiter.distributed_shared_store", {"arrivals_ns": [T]}, fix_proposed="C07-distributed-rate-limiter-forward-stamp.diff",
+        "rate_limiter.distributed_shared_store", {"arrivals_ns": [T]}, fix_proposed="C10-distributed-forward-time.diff", fix_proposed_by="C10",
     ),
     _f(
         "C07-async-server-cpu-queue-stale", "AsyncServer", "past-emission", "_process_cpu_queue",
@@ -109,13 +109,13 @@ FINDINGS = [
         "C07-rate-limited-entity-fixed-window-zero-wait", "RateLimitedEntity", "frozen-clock", "rearm:rate_limit_poll::<name>",
         "FixedWindowPolicy.time_until_available() returns zero on a window boundary while try_acquire() fails: RateLimitedEntity re-polls forever at one instant",
         "rate_limiter.fixed_window_round_window", {"arrivals_ns": [T] * 7, "cap": 2, "x": {"v": 0}},
-        fix_proposed="C07-fixed-window-integer-boundaries.diff",
+        fix_proposed="C10-fixed-window-integer-ns.diff", fix_proposed_by="C10",
     ),
     _f(
         "C07-inductor-subresolution-poll", "Inductor", "frozen-clock", "rearm:inductor_poll::<name>",
         "Inductor re-polls after `Duration.from_seconds(smoothed_interval)`; a positive interval below 1 ns truncates to a zero wait that can never satisfy _can_forward()",
         "rate_limiter.inductor_burst", {"arrivals_ns": [2500000002, 2500000002, 2500000003, 2500000003]},
-        fix_proposed="C07-inductor-subresolution-poll.diff",
+        fix_proposed="C10-inductor-poll-progress.diff", fix_proposed_by="C10",
     ),
     _f(
         "C07-shifted-server-boundary-truncation", "ShiftedServer", "frozen-clock", "rearm:_ShiftChange",
